@@ -216,7 +216,7 @@ def run(res):
   if thorough:
     for k, h in enumerate(exhaustive(3, 4)):
       hs.append((f"ex{k}", with_queries(r, h, 40, 0)))
-    res.extra["exhaustive"] = "all histories with <=3 nodes and <=4 connects (every interleaving)"
+    res.extra["exhaustive_scope"] = "all histories with <=3 nodes and <=4 connects (every interleaving)"
   # model
   inp = "\n".join(to_line(h) for _, h in hs) + "\n"
   pr = subprocess.run([exe], input=inp, capture_output=True, text=True)
